@@ -35,7 +35,7 @@ var sizes = []int{0, 1, 4095, 32768, 32769, 100000, 1 << 20}
 var srcKinds = []string{"regular", "missing", "via-symlink"}
 
 var dstKinds = []string{
-	"missing", "existing-shorter", "existing-longer", "same-path", "dot-slash-spelling", "dotdot-spelling",
+	"missing", "existing-shorter", "existing-longer", "existing-same-length", "same-path", "dot-slash-spelling", "dotdot-spelling",
 	"symlink-to-source", "hardlink-of-source", "is-a-directory", "parent-missing", "parent-is-a-file",
 	"other-mount-missing", "other-mount-existing", "dangling-symlink", "symlink-to-other-file", "symlink-on-other-mount-to-source",
 }
@@ -100,6 +100,9 @@ func build(s scenario) (src, dst string, steps []func(fsops)) {
 	case "existing-shorter":
 		dst = "W/dst.bin"
 		steps = append(steps, func(f fsops) { f.write("W/dst.bin", content(sizes[s.size]/2, 2)) })
+	case "existing-same-length":
+		dst = "W/dst.bin"
+		steps = append(steps, func(f fsops) { f.write("W/dst.bin", content(sizes[s.size], 6)) })
 	case "existing-longer":
 		dst = "W/dst.bin"
 		steps = append(steps, func(f fsops) { f.write("W/dst.bin", content(sizes[s.size]+777, 3)) })
